@@ -87,6 +87,22 @@ static void boxes(vh::Rng & r, vh::Out & out)
     IV rl, ru; bool ok2 = true;
     for (size_t a = 0; a < DIM; ++a) {rl.push_back(pr<S>(J.lower()[a], ok2)); ru.push_back(pr<S>(J.upper()[a], ok2));}
     out.put(vh::Ev("include").vec("l1", l).vec("u1", u).vec("l2", l2).vec("u2", u2).vec("rl", rl).vec("ru", ru).b("exact", ok2));
+    // the box of the interval that include() has grown, and the grown interval's own width / centre
+    {
+      IV hl, hu, q2;
+      for (size_t a = 0; a < DIM; ++a) {hl.push_back(std::min(l[a], l2[a])); hu.push_back(std::max(u[a], u2[a]));}
+      for (size_t a = 0; a < DIM; ++a) {int st = (int)r.range(0, 3); q2.push_back(st == 0 ? 2 * hl[a] : st == 1 ? 2 * hu[a] : st == 2 ? r.range(2 * hl[a], 2 * hu[a]) : 2 * hu[a] + 1);}
+      AxisAlignedBoundingBox<S, DIM> box2(J);
+      Interval<S, DIM> back2 = box2.toInterval();
+      bool ok3 = true; IV bl2, bu2, cc2, hh2;
+      for (size_t a = 0; a < DIM; ++a) {
+        bl2.push_back(pr<S>(back2.lower()[a], ok3)); bu2.push_back(pr<S>(back2.upper()[a], ok3));
+        cc2.push_back(pr<S>(2.0 * box2.getCenterPosition()[a], ok3)); hh2.push_back(pr<S>(2.0 * box2.getHalfWidthExtents()[a], ok3));
+        if (pr<S>(2.0 * J.center()[a], ok3) != hl[a] + hu[a] || pr<S>(J.width()[a], ok3) != hu[a] - hl[a]) {ok3 = false;}
+      }
+      out.put(vh::Ev("aabb").vec("l", hl).vec("u", hu).vec("p2", q2).vec("bl", bl2).vec("bu", bu2).vec("c2", cc2).vec("h2", hh2)
+        .b("inside", box2.isInside(half(q2))).b("insideI", J.inside(half(q2))).b("exact", ok3));
+    }
   }
   // --- oriented box
   {
